@@ -12,7 +12,7 @@ Definition present (fx : fixes) (e : env) (k : Z) : V :=
   let ks := if k <? 0 then [] else [k] in
   let ko := if k <? 0 then None else Some k in
   VL [voutcome (validate hash_impl fx e);
-      voutcome (verify fx e ks);
+      voutcome (verify e ks);
       match doc e with
       | None => VS (bs "marshal")            (* the empty object does not serialise *)
       | Some _ => voutcome (cli_verify hash_impl fx e ko)
